@@ -365,6 +365,26 @@ theorem C02_facts :
     ∧ Facts.enum_blocks_AbstractBlock_CrcType_CRC32 = 2
     ∧ Facts.enum_blocks_PrimaryBlock_Flag_IS_FRAGMENT = 1
     ∧ Facts.enum_blocks_PrimaryBlock_Flag_PAYLOAD_ADMIN = 2
+    -- RFC 9171 §4.2.3 bundle processing control flags
+    ∧ Facts.enum_blocks_PrimaryBlock_Flag_NONE = 0
+    ∧ Facts.enum_blocks_PrimaryBlock_Flag_NO_FRAGMENT = 0x4
+    ∧ Facts.enum_blocks_PrimaryBlock_Flag_USER_APP_ACK = 0x20
+    ∧ Facts.enum_blocks_PrimaryBlock_Flag_REQ_STATUS_TIME = 0x40
+    ∧ Facts.enum_blocks_PrimaryBlock_Flag_REQ_RECEPTION_REPORT = 0x4000
+    ∧ Facts.enum_blocks_PrimaryBlock_Flag_REQ_FORWARDING_REPORT = 0x10000
+    ∧ Facts.enum_blocks_PrimaryBlock_Flag_REQ_DELIVERY_REPORT = 0x20000
+    ∧ Facts.enum_blocks_PrimaryBlock_Flag_REQ_DELETION_REPORT = 0x40000
+    -- RFC 9171 §4.2.4 block processing control flags
+    ∧ Facts.enum_blocks_CanonicalBlock_Flag_NONE = 0
+    ∧ Facts.enum_blocks_CanonicalBlock_Flag_REPLICATE_IN_FRAGMENT = 0x01
+    ∧ Facts.enum_blocks_CanonicalBlock_Flag_STATUS_IF_NO_PROCESS = 0x02
+    ∧ Facts.enum_blocks_CanonicalBlock_Flag_DELETE_IF_NO_PROCESS = 0x04
+    ∧ Facts.enum_blocks_CanonicalBlock_Flag_REMOVE_IF_NO_PROCESS = 0x10
+    -- RFC 9171 §6.1.1 status report reason codes and RFC 9172 security reason codes known to the code
+    ∧ Facts.enum_admin_StatusReport_ReasonCode_NO_INFO = 0
+    ∧ Facts.enum_admin_StatusReport_ReasonCode_LIFETIME_EXP = 1
+    ∧ Facts.enum_admin_StatusReport_ReasonCode_HOP_LIMIT_EXC = 9
+    ∧ Facts.enum_bpsecenc_AbstractSecurityBlock_Flag_PARAMETERS_PRESENT = 1
     ∧ Facts.enum_efields_EidField_TypeCode_dtn = 1
     ∧ Facts.enum_efields_EidField_TypeCode_ipn = 2
     ∧ Facts.enum_efields_EidField_WellKnownSsp_none = 0
